@@ -13,6 +13,7 @@ for sid in sorted(os.listdir(d)):
     summ = str(m.get('summary', '')).replace('|', '/').replace('\n', ' ')
     if len(summ) > 230: summ = summ[:227] + '...'
     def cell(t):
+        if m.get('status') == 'retired': return 'not counted' if t == 'quick' else ''
         x = r.get(t)
         if not x: return ''
         return {1: 'caught', 0: '**missed**'}.get(x['exit'], 'exit %s' % x['exit']) + (' (%d sig.)' % x['violations'] if x['exit'] == 1 else '')
